@@ -142,6 +142,13 @@ func implCLI(env *Env, op Op) Result {
 	case "cli.compare":
 		files = a[7:]
 		argv = []string{"regex", "compare", string(a[6])}
+	case "cli.compareView":
+		// the display of compare for a stored and a generated expression, observed on the binary: a one-rule tree whose
+		// assembly file is the generated expression (a literal: it compiles to itself) and whose operand is the stored one
+		id := string(a[0])
+		files = [][]byte{[]byte("regex-assembly/" + id + ".ra"), append(append([]byte{}, a[2]...), '\n'),
+			[]byte("rules/REQUEST-" + id[:3] + "-X.conf"), []byte("SecRule ARGS \"@rx " + string(a[1]) + "\" \\\n    \"id:" + id + ",\\\n    phase:2\"\n")}
+		argv = []string{"regex", "compare", id}
 	case "cli.compareOut":
 		files = a[8:]
 		argv = []string{"regex", "compare", string(a[7])}
@@ -217,6 +224,12 @@ func implCLI(env *Env, op Op) Result {
 			so = c.stdout // everything the command prints, whatever the status
 		}
 		out = append(out, so)
+	}
+	if op.Name == "cli.compareView" {
+		if c.exit == 0 {
+			return Result{Status: "diag", Note: "equal"}
+		}
+		return Result{Status: "ok", Out: [][]byte{c.stdout}}
 	}
 	if op.Name == "cli.compareOut" || op.Name == "cli.compareAllOut" {
 		// everything the command prints on standard output (the side-by-side display of the two expressions included)
